@@ -139,6 +139,7 @@ def main(prop_module, argv):
 
     if a.replay:
         return replay(prop, a.replay)
+    t_batch = time.time()       # the run budget starts once the tree is built
 
     base_seed = int(os.environ.get("VERIF_SEED", "20260923"))
     runs = a.runs if a.runs is not None else (prop.quick_runs if tier == "quick" else None)
@@ -162,7 +163,7 @@ def main(prop_module, argv):
         while True:
             if runs is not None and i >= runs:
                 break
-            if time.time() - t_start > budget:
+            if time.time() - t_batch > budget:
                 break
             n = chunk if runs is None else min(chunk, runs - i)
             futs = [ex.submit(_work, (seed_for(base_seed, prop.id, i + j), i + j)) for j in range(n)]
